@@ -1,4 +1,6 @@
 """Which engines decide which property, and how their records become evidence."""
+import os
+import subprocess
 
 TIMEOUTS = {"quick": 900, "thorough": 6 * 3600}
 
@@ -13,10 +15,23 @@ ASSUMPTIONS = [
 ]
 
 
-def jobs(pid, tier):
+THRX = {"C17", "C18"}
+SEQX_ALSO = {"C01", "C15"}
+THRX_ALSO = {"C03", "C15"}
+
+
+def jobs(pid, tier, engine):
+    """-> list of (engine name, argv)"""
+    ncpu = os.cpu_count() or 4
     out = []
-    if pid in SEQX or pid in ("C01", "C15"):
-        out.append({"engine": "seqx"})
+    if pid in SEQX or pid in SEQX_ALSO:
+        for i in range(ncpu):
+            out.append(("seqx", ["seqx", "--property", pid, "--tier", tier, "--shard", f"{i}/{ncpu}"]))
+    if pid in THRX or pid in THRX_ALSO:
+        n = int(subprocess.check_output([engine, "thrx", "--property", pid, "--tier", tier, "--count"], text=True).strip())
+        # one process per driver: the set of registered caches is then exactly the driver's own
+        for i in range(n):
+            out.append(("thrx", ["thrx", "--property", pid, "--tier", tier, "--driver", str(i)]))
     return out
 
 
@@ -55,5 +70,43 @@ def evidence(pid, tier, records):
         cov["rule"] = ("breadth-first search over the real cache contents; a state is (store with values/hit counters/ages, queue, ghost ranks, clock phase); "
                        "a transition calls the real get/insert/insert_with_memory or advances the virtual clock; every fastrand draw is a branch; "
                        "exhaustive up to depth_completed per configuration (to closure where configs_closed counts it)")
+    drivers = [v for (e, k, v) in records if k == "DRIVER"]
+    if drivers:
+        sched = sum(d["schedules"] for d in drivers)
+        total_runs = sum(b["schedules"] for d in drivers for b in d["by_bound"])
+        points = sum(d["points_total"] for d in drivers)
+        bounds = [d["preemption_bound_completed"] for d in drivers]
+        by_bound = {}
+        for d in drivers:
+            for b in d["by_bound"]:
+                key = f"bound{b['bound']}/{b['rw_policy']}"
+                by_bound[key] = by_bound.get(key, 0) + b["schedules"]
+        single = [d["label"] for d in drivers if d["distinct_observations"] <= 1]
+        cov["thrx"] = {
+            "drivers": len(drivers),
+            "schedules_at_max_bound": sched,
+            "executions_all_bounds": total_runs,
+            "schedules_by_bound_and_rw_policy": by_bound,
+            "scheduling_points_total": points,
+            "max_points_per_execution": max(d["max_points"] for d in drivers),
+            "preemption_bound_completed": None if any(b is None for b in bounds) else min(bounds),
+            "executions_ending_in_deadlock": sum(d["deadlocks"] for d in drivers),
+            "distinct_observations_total": sum(d["distinct_observations"] for d in drivers),
+            "drivers_with_a_single_outcome": len(single),
+            "exec_caps_hit": [d["label"] for d in drivers if d.get("exec_cap_hit")],
+        }
+        cov["schedules"] = sched
+        cov["preemption_bound_completed"] = cov["thrx"]["preemption_bound_completed"]
+        cov["states"] = cov.get("states", 0) + cov["thrx"]["distinct_observations_total"]
+        cov["transitions"] = cov.get("transitions", 0) + points
+        cov["traces_validated_against_impl"] = cov.get("traces_validated_against_impl", 0) + total_runs
+        cov["configs"] = cov.get("configs", 0) + len(drivers)
+        big = sorted(drivers, key=lambda d: -d["schedules"])[:2]
+        cov.setdefault("samples", []).extend({"driver": d["label"], "schedules": d["schedules"], "case": d["sample"]} for d in big)
+        cov["caps_hit"] = cov.get("caps_hit", []) + cov["thrx"]["exec_caps_hit"]
+        cov["exhaustive"] = False
+        cov["rule"] = (cov.get("rule", "") + " | thrx: stateless depth-first enumeration of every schedule of the driver's real OS threads with at most "
+                       "preemption_bound_completed preemptions (scheduling points: every lock acquisition incl. DashMap shard locks, operation boundaries, "
+                       "stats atomics where enabled), under both rwlock fairness policies; states = distinct final observations, transitions = scheduling points executed").strip(" |")
     cov.setdefault("samples", [])
     return {"coverage": cov, "assumptions": ASSUMPTIONS}
